@@ -249,6 +249,8 @@ class PythonRegex(regex.Regex):
                 else:
                     previous_is_valid_for_range = True
         bracket_content_temp = self._preprocess_negation(bracket_content_temp)
+        # A set lists each member once, even when ranges overlap
+        bracket_content_temp = list(dict.fromkeys(bracket_content_temp))
         bracket_content_temp = self._insert_or(bracket_content_temp)
         bracket_content_temp = self._recombine(bracket_content_temp)
         return bracket_content_temp
